@@ -11,9 +11,15 @@
 #define __CPROVER_atomic_begin()
 #define __CPROVER_atomic_end()
 #endif
+#if defined(__CPROVER__) && defined(LL2C_MAXCPY)
+static inline void ll2c_memcpy(uint8_t* d, const uint8_t* s, uint64_t n) { __CPROVER_assert(n <= LL2C_MAXCPY, "copy within modelled bound"); for (uint64_t i = 0; i < n; i++) d[i] = s[i]; }
+static inline void ll2c_memmove(uint8_t* d, const uint8_t* s, uint64_t n) { uint8_t t[LL2C_MAXCPY]; __CPROVER_assert(n <= LL2C_MAXCPY, "copy within modelled bound"); for (uint64_t i = 0; i < n; i++) t[i] = s[i]; for (uint64_t i = 0; i < n; i++) d[i] = t[i]; }
+static inline void ll2c_memset(uint8_t* d, uint8_t c, uint64_t n) { __CPROVER_assert(n <= LL2C_MAXCPY, "set within modelled bound"); for (uint64_t i = 0; i < n; i++) d[i] = c; }
+#else
 static inline void ll2c_memcpy(uint8_t* d, const uint8_t* s, uint64_t n) { memcpy(d, s, n); }
 static inline void ll2c_memmove(uint8_t* d, const uint8_t* s, uint64_t n) { memmove(d, s, n); }
 static inline void ll2c_memset(uint8_t* d, uint8_t c, uint64_t n) { memset(d, c, n); }
+#endif
 static inline void ll2c_unreachable(void) { __CPROVER_assert(0, "llvm unreachable executed"); __CPROVER_assume(0); }
 static inline void ll2c_noreturn(const char* what) { (void)what; __CPROVER_assert(0, "noreturn call (throw/abort) reached"); __CPROVER_assume(0); }
 static inline uint64_t ll2c_ctlz(uint64_t v, unsigned bits) { if (v == 0) return bits; unsigned n = 0; uint64_t x = v; if (!(x >> 32)) { n += 32; x <<= 32; } if (!(x >> 48)) { n += 16; x <<= 16; } if (!(x >> 56)) { n += 8; x <<= 8; } if (!(x >> 60)) { n += 4; x <<= 4; } if (!(x >> 62)) { n += 2; x <<= 2; } if (!(x >> 63)) { n += 1; } return n - (64 - bits); }
